@@ -38,6 +38,7 @@ macro_rules
               | apply ec_evCancel $hR (AllButIntr.event $hA)
               | apply ec_cancelAllFor $hR (AllButIntr.event $hA)
               | apply ec_cancelKindFor $hR (AllButIntr.event $hA)
+              | apply ec_cancelUserAll $hR (AllButIntr.event $hA)
               | apply ec_guardSignal $hR (AllButIntr.res $hA)
               | apply ec_signal $hR (AllButIntr.res $hA)
               | apply ec_guardWithdraw $hR (AllButIntr.event $hA) (AllButIntr.res $hA)
@@ -147,6 +148,7 @@ macro_rules
               | apply ec_signal $hR (AllButIntr.res $hA)
               | apply ec_guardWaitLeave $hR (AllButIntr.event $hA) (AllButIntr.res $hA)
               | apply ec_cancelKindFor $hR (AllButIntr.event $hA)
+              | apply ec_cancelUserAll $hR (AllButIntr.event $hA)
               | apply ec_recordPool $hR
               | apply ec_recordPQ $hR
               | apply ec_setPoolInUse $hR
